@@ -2,9 +2,9 @@ from . import astronomy, functions, image_processing, wfs, turbulence, opticalpr
 
 from .astronomy import *
 from .functions import *
-from .fouriertransform import *
 from .interpolation import *
 from .turbulence import *
+from .fouriertransform import *
 from .image_processing import *
 
 from ._version import get_versions
